@@ -194,6 +194,11 @@ class Check:
             from .engine import Obligation
             eng.obligations += [Obligation(oid=f"lemma/{lid}", kind="lemma", hyps=tuple(h), goal=g, target="lemma", probes=dict(pr))
                                 for lid, h, g, pr in concat_lemmas()]
+        if "net.cover" in getattr(eng, "engine_lemmas", set()):
+            from .lemmas import net_lemmas
+            from .engine import Obligation
+            eng.obligations += [Obligation(oid=f"lemma/{lid}", kind="lemma", hyps=tuple(h), goal=g, target="lemma", probes=dict(pr))
+                                for lid, h, g, pr in net_lemmas()]
         t_gen = time.time() - self.t0
         smt.discharge(eng.obligations, timeout_s=timeout_s)
         # an obligation proved with the help of hints counts only if every hint it assumed is itself proved
